@@ -723,7 +723,8 @@ def atomicfile_conformance(ctx, scenarios):
     r = ctx.take(results, "fs-atomic")
     if r["counters"].get("cases", 0) < 6 * len(scenarios):
         raise ToolTrouble("fault injection reached only %d cases (strace injection not effective?)" % r["counters"].get("cases", 0))
-    # the recorded system calls (clean runs and injected-error runs) must be behaviours of AtomicFile
+    # the recorded system calls (clean runs and injected-error runs) are held against FileSys.tla (complete and flushed before the
+    # rename, live file never touched, owner-only, error = old / success = new), whatever names and order the writer uses
     lines = open(os.path.join(wd, "trace.ndjson")).read().splitlines()
     runs, cur = [], []
     for l in lines:
@@ -739,7 +740,7 @@ def atomicfile_conformance(ctx, scenarios):
     while todo and rounds < 6:
         rounds += 1
         flat = [l for r_ in todo for l in r_]
-        run = ctx.tlc("AtomicFileTrace", "AtomicFileTrace.cfg", files={"trace.ndjson": ("\n".join(flat) + "\n").encode()}, workers=1,
+        run = ctx.tlc("FileSysTrace", "FileSysTrace.cfg", files={"trace.ndjson": ("\n".join(flat) + "\n").encode()}, workers=1,
                       name="proto-r%d" % rounds, deque=True)
         if run.code == 0:
             ok += len(todo)
@@ -752,14 +753,14 @@ def atomicfile_conformance(ctx, scenarios):
             lv = run.var_in_error_state("l")
             hw = int(lv) if lv and lv.isdigit() else None
         if hw is None:
-            raise ToolTrouble("TLC failed on AtomicFileTrace:\n" + run.tail(30))
+            raise ToolTrouble("TLC failed on FileSysTrace:\n" + run.tail(30))
         pos = 0
         for i, r_ in enumerate(todo):
             if pos + len(r_) >= hw:
                 ok += i
                 ev = json.loads(r_[min(hw - pos, len(r_)) - 1])
                 ctx.violation("file protocol: %s" % " ".join(json.loads(x)["ev"] for x in r_),
-                              "the system calls of a save are not a behaviour of AtomicFile (%s); first call the specification cannot follow: %s; calls: %s" % (
+                              "the system calls of a save break what FileSys.tla requires of them (%s); reached at call: %s; calls: %s" % (
                                   run.error or "trace not accepted", json.dumps(ev), " ".join(json.loads(x)["ev"] for x in r_)),
                               {"kind": "syscalls", "run": [json.loads(x) for x in r_]})
                 todo = todo[i + 1:]
